@@ -214,6 +214,16 @@ VARIANTS = [
      "old": "        if isinstance(event[\"body\"], dict):\n            msg.add_block(Block(\"EventData\", **event[\"body\"]))\n",
      "new": "        payload = event[\"body\"]\n        if isinstance(payload, dict):\n"
             "            msg.add_block(Block(\"EventData\", **payload))\n"},
+    # ---- round 4: template agreement of the region-announcing reads
+    {"name": "R4 field name that the selected block does not have", "file": HEM, "expect": "C17.R4",
+     "old": "            sim_handle = sim_block[\"RegionHandle\"]\n", "new": "            sim_handle = sim_block[\"Handle\"]\n"},
+    {"name": "R4 EnableSimulator read from a block the message does not have", "file": HEM, "expect": "C17.R4",
+     "old": "msg[\"SimulatorInfo\"][0]", "new": "msg[\"SimulatorData\"][0]"},
+    {"name": "P R4 EnableSimulator block fetched through get_block under another name", "file": HEM, "expect": "silent",
+     "old": "            sim_block = msg[\"SimulatorInfo\"][0]\n            sim_addr = (sim_block[\"IP\"], sim_block[\"Port\"])\n"
+            "            sim_handle = sim_block[\"Handle\"]\n",
+     "new": "            info = msg.get_block(\"SimulatorInfo\")[0]\n            sim_addr = (info[\"IP\"], info[\"Port\"])\n"
+            "            sim_handle = info[\"Handle\"]\n"},
     # ---- documented limit
     {"name": "X swallow on any truthy hook result instead of `is True` (value level)", "file": HEM, "expect": "miss",
      "old": "        if handle_event is True:\n", "new": "        if handle_event:\n"},
